@@ -33,7 +33,8 @@ fn main() {
 mod real {
     use bytes::Bytes;
     use cascette_cache::MemoryCache;
-    use cascette_cache::config::MemoryCacheConfig;
+    use cascette_cache::config::{DiskCacheConfig, MemoryCacheConfig};
+    use cascette_cache::disk_cache::DiskCache;
     use cascette_cache::key::RibbitKey;
     use cascette_cache::traits::{AsyncCache, EvictionPolicy};
     use std::cell::RefCell;
@@ -160,7 +161,7 @@ mod real {
     /// Hand-over between the controller and the workers. Exactly one side runs at a time and
     /// every hand-over is short, so both sides spin on atomics (a condvar round trip per step
     /// costs ~50 us; this costs well under 1 us) and fall back to yielding / sleeping.
-    struct Ctl {
+    pub struct Ctl {
         /// 0 = running, 1 = done, otherwise the site letter the worker is parked at
         st: Vec<AtomicU32>,
         go: Vec<AtomicBool>,
@@ -193,6 +194,13 @@ mod real {
             "mem.evict.before_remove" => 'r',
             "mem.evict.before_count" => 's',
             "mem.evict.before_bytes" => 't',
+            "disk.write.before_open" => 'A',
+            "disk.write.before_write" => 'B',
+            "disk.write.before_rename" => 'C',
+            "disk.put.before_index" => 'E',
+            "disk.get.expired.before_remove" => 'F',
+            "disk.get.before_read" => 'G',
+            "disk.get.before_touch" => 'H',
             _ => '?',
         }
     }
@@ -373,52 +381,21 @@ mod real {
         Drain,
     }
 
-    /// Run one case on the real cache. `choose(step, alive)` names the next thread (it may name
-    /// a finished one: skipped) or asks for the drain (lowest live thread first).
-    pub fn execute(case: &Case, choose: &mut dyn FnMut(usize, &[usize]) -> Choice) -> Outcome {
-        let mut cfg = MemoryCacheConfig::new()
-            .with_max_entries(case.max)
-            .with_eviction_policy(if case.fifo { EvictionPolicy::Fifo } else { EvictionPolicy::Lru });
-        cfg.max_memory_bytes = None;
-        let cache: Arc<MemoryCache<RibbitKey>> = Arc::new(MemoryCache::new(cfg).expect("config"));
-        let rt = tokio::runtime::Builder::new_current_thread().build().expect("rt");
-        let mut pre = vec![];
-        for op in &case.pre {
-            advance_clocks();
-            pre.push(rt.block_on(exec(&cache, op)));
-        }
-        advance_clocks();
-        let nt = case.progs.len();
-        let ctl = Arc::new(Ctl::new(nt));
-        let results: Arc<Mutex<Vec<Vec<String>>>> = Arc::new(Mutex::new(vec![vec![]; nt]));
-        let mut handles = vec![];
-        for (tid, prog) in case.progs.iter().cloned().enumerate() {
-            let (ctl, cache, results) = (ctl.clone(), cache.clone(), results.clone());
-            handles.push(std::thread::spawn(move || {
-                WORKER.with(|w| *w.borrow_mut() = Some((ctl.clone(), tid)));
-                let rt = tokio::runtime::Builder::new_current_thread().build().expect("rt");
-                for op in &prog {
-                    ctl.park(tid, 'S');
-                    let r = catch(AssertUnwindSafe(|| rt.block_on(exec(&cache, op)))).unwrap_or_else(|_| "panic".into());
-                    results.lock().unwrap_or_else(|e| e.into_inner())[tid].push(r);
-                }
-                WORKER.with(|w| *w.borrow_mut() = None);
-                ctl.finish(tid);
-            }));
-        }
-        let mut out = Outcome {
-            pre,
-            results: vec![],
-            sched: String::new(),
-            trace: String::new(),
-            drain: String::new(),
-            steps: vec![],
-            alive: vec![],
-            n: 0,
-            b: 0,
-            contents: BTreeMap::new(),
-            timeout: false,
-        };
+    /// what the controller did and saw while it stepped the workers
+    #[derive(Debug)]
+    pub struct Drive {
+        sched: String,
+        trace: String,
+        drain: String,
+        steps: Vec<StepRec>,
+        alive: Vec<Vec<usize>>,
+        timeout: bool,
+    }
+
+    /// Step `nt` parked workers until all have finished. `choose(step, alive)` names the next
+    /// thread (it may name a finished one: skipped) or asks for the drain (lowest live first).
+    pub fn drive(ctl: &Ctl, nt: usize, choose: &mut dyn FnMut(usize, &[usize]) -> Choice) -> Drive {
+        let mut out = Drive { sched: String::new(), trace: String::new(), drain: String::new(), steps: vec![], alive: vec![], timeout: false };
         let mut opidx = vec![0usize; nt];
         let mut draining = false;
         let mut step_no = 0usize;
@@ -476,6 +453,56 @@ mod real {
                 out.trace.push(after);
             }
         }
+        out
+    }
+
+    /// Run one case on the real cache. `choose(step, alive)` names the next thread (it may name
+    /// a finished one: skipped) or asks for the drain (lowest live thread first).
+    pub fn execute(case: &Case, choose: &mut dyn FnMut(usize, &[usize]) -> Choice) -> Outcome {
+        let mut cfg = MemoryCacheConfig::new()
+            .with_max_entries(case.max)
+            .with_eviction_policy(if case.fifo { EvictionPolicy::Fifo } else { EvictionPolicy::Lru });
+        cfg.max_memory_bytes = None;
+        let cache: Arc<MemoryCache<RibbitKey>> = Arc::new(MemoryCache::new(cfg).expect("config"));
+        let rt = tokio::runtime::Builder::new_current_thread().build().expect("rt");
+        let mut pre = vec![];
+        for op in &case.pre {
+            advance_clocks();
+            pre.push(rt.block_on(exec(&cache, op)));
+        }
+        advance_clocks();
+        let nt = case.progs.len();
+        let ctl = Arc::new(Ctl::new(nt));
+        let results: Arc<Mutex<Vec<Vec<String>>>> = Arc::new(Mutex::new(vec![vec![]; nt]));
+        let mut handles = vec![];
+        for (tid, prog) in case.progs.iter().cloned().enumerate() {
+            let (ctl, cache, results) = (ctl.clone(), cache.clone(), results.clone());
+            handles.push(std::thread::spawn(move || {
+                WORKER.with(|w| *w.borrow_mut() = Some((ctl.clone(), tid)));
+                let rt = tokio::runtime::Builder::new_current_thread().build().expect("rt");
+                for op in &prog {
+                    ctl.park(tid, 'S');
+                    let r = catch(AssertUnwindSafe(|| rt.block_on(exec(&cache, op)))).unwrap_or_else(|_| "panic".into());
+                    results.lock().unwrap_or_else(|e| e.into_inner())[tid].push(r);
+                }
+                WORKER.with(|w| *w.borrow_mut() = None);
+                ctl.finish(tid);
+            }));
+        }
+        let d = drive(&ctl, nt, choose);
+        let mut out = Outcome {
+            pre,
+            results: vec![],
+            sched: d.sched,
+            trace: d.trace,
+            drain: d.drain,
+            steps: d.steps,
+            alive: d.alive,
+            n: 0,
+            b: 0,
+            contents: BTreeMap::new(),
+            timeout: d.timeout,
+        };
         if out.timeout {
             // stuck workers cannot be joined; leave them parked
             return out;
@@ -520,6 +547,10 @@ mod real {
         /// (first step, last step) of every op of every thread
         iv: Vec<Vec<(usize, usize)>>,
         drops: bool,
+        /// DiskCache semantics of an entry whose TTL has ended: `contains` leaves it in place;
+        /// a `get` may still serve it (the not-indexed fallback path indexes a file it finds
+        /// without a TTL; the put's own index step then stores the TTL)
+        disk: bool,
     }
 
     impl Lin<'_> {
@@ -536,7 +567,10 @@ mod real {
                             false
                         }
                     }
-                    Some(RefSlot::Expired(_)) => {
+                    Some(RefSlot::Expired(sz)) => {
+                        if self.disk && res.strip_prefix('v').and_then(unhex).is_some_and(|v| v.len() as u64 == sz) {
+                            return true;
+                        }
                         r.remove(k);
                         res == "none"
                     }
@@ -554,7 +588,9 @@ mod real {
                         }
                     }
                     Some(RefSlot::Expired(_)) => {
-                        r.remove(k);
+                        if !self.disk {
+                            r.remove(k);
+                        }
                         res == "f"
                     }
                     None => res == "f",
@@ -728,7 +764,7 @@ mod real {
         // linearizability of answers and final contents
         let mut r0: BTreeMap<usize, RefSlot> = BTreeMap::new();
         {
-            let pre_lin = Lin { case, out, iv: vec![], drops: false };
+            let pre_lin = Lin { case, out, iv: vec![], drops: false, disk: false };
             for (op, res) in case.pre.iter().zip(out.pre.iter()) {
                 if !pre_lin.apply(&mut r0, op, res) && case.max >= 100 {
                     fails.push(("mem-sequential-answer".into(), format!("pre op {} answered {res}", op.tok())));
@@ -737,7 +773,7 @@ mod real {
         }
         let evicted = out.steps.iter().any(|s| s.after == 's');
         // sequential pre-phase evictions (small max) also forget entries
-        let lin = Lin { case, out, iv, drops: evicted || case.max < 100 };
+        let lin = Lin { case, out, iv, drops: evicted || case.max < 100, disk: false };
         if out.results.iter().zip(case.progs.iter()).all(|(r, p)| r.len() == p.len()) {
             let mut next = vec![0usize; case.progs.len()];
             if !lin.search(&mut next, &r0) {
@@ -791,30 +827,29 @@ mod real {
         execute(case, &mut ch)
     }
 
-    /// every schedule of the case (stateless depth-first search driven by the real execution);
-    /// returns (schedules run, truncated?)
-    fn run_all(r: &mut Runner, case: &Case, cap: usize) -> (usize, bool) {
+    /// every schedule of a case (stateless depth-first search driven by the real execution);
+    /// `run(choose)` executes + emits one schedule and returns (threads chosen, alive sets,
+    /// timeout); returns (schedules run, truncated?)
+    fn dfs(run: &mut dyn FnMut(&mut dyn FnMut(usize, &[usize]) -> Choice) -> (Vec<usize>, Vec<Vec<usize>>, bool), cap: usize) -> (usize, bool) {
         let mut prefix: Vec<usize> = vec![];
         let mut count = 0;
         loop {
             let p = prefix.clone();
             let mut ch = |i: usize, alive: &[usize]| Choice::Tid(if i < p.len() { p[i] } else { alive[0] });
-            let out = execute(case, &mut ch);
-            r.emit(case, &out);
+            let (chosen, alive, timeout) = run(&mut ch);
             count += 1;
-            if out.timeout {
+            if timeout {
                 return (count, true);
             }
             if count >= cap {
                 return (count, true);
             }
             // backtrack: last step where a higher-numbered live thread was available
-            let chosen: Vec<usize> = out.steps.iter().map(|s| s.tid).collect();
             let mut i = chosen.len();
             let mut found = false;
             while i > 0 {
                 i -= 1;
-                if let Some(nx) = out.alive[i].iter().find(|t| **t > chosen[i]) {
+                if let Some(nx) = alive[i].iter().find(|t| **t > chosen[i]) {
                     prefix = chosen[..i].to_vec();
                     prefix.push(*nx);
                     found = true;
@@ -825,6 +860,17 @@ mod real {
                 return (count, false);
             }
         }
+    }
+
+    fn run_all(r: &mut Runner, case: &Case, cap: usize) -> (usize, bool) {
+        dfs(
+            &mut |ch| {
+                let out = execute(case, ch);
+                r.emit(case, &out);
+                (out.steps.iter().map(|s| s.tid).collect(), out.alive.clone(), out.timeout)
+            },
+            cap,
+        )
     }
 
     fn run_random(r: &mut Runner, rng: &mut Rng, case: &Case) {
@@ -839,6 +885,506 @@ mod real {
         };
         let out = execute(case, &mut ch);
         r.emit(case, &out);
+    }
+
+    // ------------------------------------------------------------------ DiskCache under the controller
+
+    /// endpoints of the RibbitKeys used for the disk cache: cache key string = file name =
+    /// "ribbit:us:<endpoint>"; keys 2 and 3 differ only after the last '.', so
+    /// `path.with_extension("tmp")` gives both the temporary name "ribbit:us:e.tmp"
+    const DISK_ENDPOINTS: [&str; NKEYS] = ["k0", "k1", "e.a", "e.b"];
+
+    fn dkey(n: usize) -> RibbitKey {
+        RibbitKey::new(DISK_ENDPOINTS[n], "us")
+    }
+
+    fn dname(n: usize) -> String {
+        use cascette_cache::key::CacheKey;
+        CacheKey::as_cache_key(&dkey(n)).to_string()
+    }
+
+    /// temporary file name of a key, by the library function the cache itself calls
+    fn dtmp(n: usize) -> String {
+        std::path::Path::new(&dname(n)).with_extension("tmp").to_string_lossy().into_owned()
+    }
+
+    #[derive(Clone, Debug)]
+    pub struct DCase {
+        pre: Vec<Op>,
+        progs: Vec<Vec<Op>>,
+    }
+
+    impl DCase {
+        fn line(&self, sched: &str) -> String {
+            format!(
+                "drun keys={} pre={} t={} s={}",
+                (0..NKEYS).map(dname).collect::<Vec<_>>().join(","),
+                ops_str(&self.pre),
+                self.progs.iter().map(|p| ops_str(p)).collect::<Vec<_>>().join("|"),
+                if sched.is_empty() { "-" } else { sched }
+            )
+        }
+        fn parse(line: &str) -> Option<(DCase, Vec<usize>)> {
+            let t: Vec<&str> = line.split(' ').filter(|x| !x.is_empty()).collect();
+            if t.len() != 5 || t[0] != "drun" {
+                return None;
+            }
+            // the key strings are fixed by the harness: a line naming others is not replayable
+            if t[1].strip_prefix("keys=")? != (0..NKEYS).map(dname).collect::<Vec<_>>().join(",") {
+                return None;
+            }
+            let pre = parse_ops(t[2].strip_prefix("pre=")?)?;
+            let progs: Option<Vec<Vec<Op>>> = t[3].strip_prefix("t=")?.split('|').map(parse_ops).collect();
+            let progs = progs?;
+            let s = t[4].strip_prefix("s=")?;
+            let sched: Option<Vec<usize>> =
+                if s == "-" { Some(vec![]) } else { s.chars().map(|c| c.to_digit(10).map(|d| d as usize)).collect() };
+            if progs.len() > 9 || pre.iter().chain(progs.iter().flatten()).any(|o| *o == Op::Clear) {
+                return None;
+            }
+            Some((DCase { pre, progs }, sched?))
+        }
+    }
+
+    async fn dexec(cache: &DiskCache<RibbitKey>, op: &Op) -> String {
+        match op {
+            Op::Get(k) => match cache.get(&dkey(*k)).await {
+                Ok(Some(b)) => format!("v{}", hex(&b)),
+                Ok(None) => "none".into(),
+                Err(_) => "err".into(),
+            },
+            Op::Contains(k) => match cache.contains(&dkey(*k)).await {
+                Ok(true) => "t".into(),
+                Ok(false) => "f".into(),
+                Err(_) => "err".into(),
+            },
+            Op::Remove(k) => match cache.remove(&dkey(*k)).await {
+                Ok(true) => "t".into(),
+                Ok(false) => "f".into(),
+                Err(_) => "err".into(),
+            },
+            Op::Clear => "bad".into(),
+            Op::Put(k, v, short) => {
+                let ttl = if *short { Duration::ZERO } else { LONG };
+                match cache.put_with_ttl(dkey(*k), Bytes::from(v.clone()), ttl).await {
+                    Ok(()) => "ok".into(),
+                    Err(_) => "err".into(),
+                }
+            }
+        }
+    }
+
+    /// what the probe `get` of a key found at quiescence (classified with the counters read
+    /// before and after it)
+    #[derive(Clone, Debug, PartialEq)]
+    pub enum DSlot {
+        Absent,
+        Live(Vec<u8>),
+        /// served from a file the index did not know (entry_count went up)
+        FileOnly(Vec<u8>),
+        Expired(u64),
+        /// indexed, file missing: the get failed and dropped the entry
+        Broken(u64),
+    }
+
+    #[derive(Debug)]
+    pub struct DOutcome {
+        pre: Vec<String>,
+        results: Vec<Vec<String>>,
+        d: Drive,
+        n: u64,
+        b: u64,
+        c: String,
+        fs: Vec<(String, Vec<u8>)>,
+        g: Vec<String>,
+        slots: Vec<DSlot>,
+        n2: u64,
+        b2: u64,
+    }
+
+    impl DOutcome {
+        fn response(&self) -> String {
+            if self.d.timeout {
+                return "timeout".into();
+            }
+            let j = |v: &Vec<String>| if v.is_empty() { "-".to_string() } else { v.join(",") };
+            let fs = if self.fs.is_empty() {
+                "-".to_string()
+            } else {
+                self.fs.iter().map(|(n, v)| format!("{n}={}", hex(v))).collect::<Vec<_>>().join(";")
+            };
+            format!(
+                "pre={} r={} tr={}/{} n={} b={} c={} fs={} g={} n2={} b2={}",
+                j(&self.pre),
+                self.results.iter().map(j).collect::<Vec<_>>().join("|"),
+                self.d.trace,
+                self.d.drain,
+                self.n,
+                self.b,
+                self.c,
+                fs,
+                j(&self.g),
+                self.n2,
+                self.b2
+            )
+        }
+    }
+
+    fn scratch_dir() -> tempfile::TempDir {
+        // fsync on every put: keep the scratch directory in memory when the machine has /dev/shm
+        let shm = std::path::Path::new("/dev/shm");
+        if shm.is_dir() { tempfile::tempdir_in(shm).or_else(|_| tempfile::tempdir()) } else { tempfile::tempdir() }.expect("scratch dir")
+    }
+
+    pub fn dexecute(case: &DCase, choose: &mut dyn FnMut(usize, &[usize]) -> Choice) -> DOutcome {
+        let dir = scratch_dir();
+        let cfg = DiskCacheConfig::new(dir.path()).with_max_files(1000).with_subdirectories(false, 0);
+        let cache: Arc<DiskCache<RibbitKey>> = Arc::new(DiskCache::new(cfg).expect("config"));
+        let rt = tokio::runtime::Builder::new_current_thread().build().expect("rt");
+        let mut pre = vec![];
+        for op in &case.pre {
+            advance_clocks();
+            pre.push(rt.block_on(dexec(&cache, op)));
+        }
+        advance_clocks();
+        let nt = case.progs.len();
+        let ctl = Arc::new(Ctl::new(nt));
+        let results: Arc<Mutex<Vec<Vec<String>>>> = Arc::new(Mutex::new(vec![vec![]; nt]));
+        let mut handles = vec![];
+        for (tid, prog) in case.progs.iter().cloned().enumerate() {
+            let (ctl, cache, results) = (ctl.clone(), cache.clone(), results.clone());
+            handles.push(std::thread::spawn(move || {
+                WORKER.with(|w| *w.borrow_mut() = Some((ctl.clone(), tid)));
+                let rt = tokio::runtime::Builder::new_current_thread().build().expect("rt");
+                for op in &prog {
+                    ctl.park(tid, 'S');
+                    let r = catch(AssertUnwindSafe(|| rt.block_on(dexec(&cache, op)))).unwrap_or_else(|_| "panic".into());
+                    results.lock().unwrap_or_else(|e| e.into_inner())[tid].push(r);
+                }
+                WORKER.with(|w| *w.borrow_mut() = None);
+                ctl.finish(tid);
+            }));
+        }
+        let d = drive(&ctl, nt, choose);
+        let mut out = DOutcome { pre, results: vec![], d, n: 0, b: 0, c: String::new(), fs: vec![], g: vec![], slots: vec![], n2: 0, b2: 0 };
+        if out.d.timeout {
+            std::mem::forget(dir);
+            return out;
+        }
+        for h in handles {
+            let _ = h.join();
+        }
+        out.results = results.lock().unwrap_or_else(|e| e.into_inner()).clone();
+        advance_clocks();
+        let books = |c: &DiskCache<RibbitKey>| {
+            let st = c.cache_stats();
+            (st.entry_count as u64, st.memory_usage_bytes as u64)
+        };
+        (out.n, out.b) = books(&cache);
+        for k in 0..NKEYS {
+            out.c.push(if rt.block_on(cache.contains(&dkey(k))).unwrap_or(false) { 't' } else { 'f' });
+        }
+        if let Ok(rd) = std::fs::read_dir(dir.path()) {
+            for e in rd.flatten() {
+                let name = e.file_name().to_string_lossy().into_owned();
+                out.fs.push((name, std::fs::read(e.path()).unwrap_or_default()));
+            }
+        }
+        out.fs.sort();
+        for k in 0..NKEYS {
+            let (n0, b0) = books(&cache);
+            let r = rt.block_on(dexec(&cache, &Op::Get(k)));
+            let (n1, b1) = books(&cache);
+            let slot = match r.as_str() {
+                "none" if n1 == n0 => DSlot::Absent,
+                "none" => DSlot::Expired(b0.wrapping_sub(b1)),
+                "err" => DSlot::Broken(b0.wrapping_sub(b1)),
+                v => {
+                    let bytes = unhex(&v[1..]).unwrap_or_default();
+                    if n1 == n0 { DSlot::Live(bytes) } else { DSlot::FileOnly(bytes) }
+                }
+            };
+            out.g.push(r);
+            out.slots.push(slot);
+        }
+        (out.n2, out.b2) = books(&cache);
+        out
+    }
+
+    fn overlap(a: (usize, usize), b: (usize, usize)) -> bool {
+        a.0 <= b.1 && b.0 <= a.1
+    }
+
+    /// every (thread, op index, op, interval)
+    fn all_ops<'a>(progs: &'a [Vec<Op>], iv: &[Vec<(usize, usize)>]) -> Vec<(usize, usize, &'a Op, (usize, usize))> {
+        let mut v = vec![];
+        for (t, p) in progs.iter().enumerate() {
+            for (i, op) in p.iter().enumerate() {
+                v.push((t, i, op, iv[t][i]));
+            }
+        }
+        v
+    }
+
+    /// Oracle for a DiskCache run (implementation only): no operation fails, every value served
+    /// (to a thread, to the probes, and every file left under a key's name) is a value some put
+    /// wrote for that key, books at quiescence (entry_count / disk_usage = the entries the
+    /// probes found), no indexed entry without a file, answers + final contents linearizable.
+    /// The sig of a failure names the race the run contains (computed from the programs, the
+    /// real-time intervals and the sites reached), so a failure of another shape stays new.
+    fn doracle(case: &DCase, out: &DOutcome) -> Vec<(String, String)> {
+        let mut fails: Vec<(String, String)> = vec![];
+        if out.d.timeout {
+            return vec![("disk-schedule-stuck".into(), "a worker neither parked nor finished within the watchdog time".into())];
+        }
+        let mut iv: Vec<Vec<(usize, usize)>> = case.progs.iter().map(|p| vec![(usize::MAX, 0); p.len()]).collect();
+        for (i, s) in out.d.steps.iter().enumerate() {
+            if s.op < iv[s.tid].len() {
+                let e = &mut iv[s.tid][s.op];
+                e.0 = e.0.min(i);
+                e.1 = e.1.max(i);
+            }
+        }
+        let ops = all_ops(&case.progs, &iv);
+        // the races the run contains
+        // (1) two puts of different threads overlap and use the same temporary name
+        let tmp_clash = |t: usize, i: usize| {
+            let Some(Op::Put(k, _, _)) = case.progs[t].get(i) else { return false };
+            ops.iter().any(|(u, _, o, jv)| *u != t && matches!(o, Op::Put(k2, _, _) if dtmp(*k2) == dtmp(*k)) && overlap(iv[t][i], *jv))
+        };
+        let any_tmp_clash = ops.iter().any(|(t, i, _, _)| tmp_clash(*t, *i));
+        // (2) a get that went down a removal path (expired entry seen: site F; or read failed)
+        //     and whose look and removal are separated by another thread's step on the same key
+        let took_expired = |t: usize, i: usize| out.d.steps.iter().any(|s| s.tid == t && s.op == i && s.after == 'F');
+        let removers_of = |k: usize, t: usize, i: usize| {
+            ops.iter().any(|(u, j, o, jv)| {
+                *u != t && o.key() == Some(k) && overlap(iv[t][i], *jv) && (matches!(o, Op::Remove(_) | Op::Put(..)) || (matches!(o, Op::Get(_)) && took_expired(*u, *j)))
+            })
+        };
+        let stale_get = ops.iter().any(|(t, i, o, _)| match o {
+            Op::Get(k) => (took_expired(*t, *i) || out.results[*t].get(*i).is_some_and(|r| r == "err")) && removers_of(*k, *t, *i),
+            _ => false,
+        });
+        // (3) a put overlaps a remove / an expired-path get of the same key in another thread
+        let put_vs_remove = |k: usize| {
+            ops.iter().any(|(t, _, o, a)| {
+                matches!(o, Op::Put(k1, _, _) if *k1 == k)
+                    && ops.iter().any(|(u, j, o2, b)| u != t && o2.key() == Some(k) && overlap(*a, *b) && (matches!(o2, Op::Remove(_)) || (matches!(o2, Op::Get(_)) && took_expired(*u, *j))))
+            })
+        };
+        // no operation fails
+        for (t, rs) in out.results.iter().enumerate() {
+            for (i, r) in rs.iter().enumerate() {
+                if r != "err" && r != "panic" {
+                    continue;
+                }
+                let op = &case.progs[t][i];
+                let sig = match op {
+                    Op::Put(..) if r == "err" && tmp_clash(t, i) => "disk-shared-tmp-rename-fails",
+                    Op::Get(k) if r == "err" && removers_of(*k, t, i) => "disk-get-fails-racing-remove",
+                    Op::Get(k) if r == "err" && put_vs_remove(*k) => "disk-put-remove-index-without-file",
+                    _ => "disk-op-failed",
+                };
+                fails.push((sig.into(), format!("thread {t} op {i} ({}) answered {r}", op.tok())));
+            }
+        }
+        // provenance
+        let mut written: BTreeMap<usize, Vec<Vec<u8>>> = BTreeMap::new();
+        for op in case.pre.iter().chain(case.progs.iter().flatten()) {
+            if let Op::Put(k, v, _) = op {
+                written.entry(*k).or_default().push(v.clone());
+            }
+        }
+        let wrote = |k: usize, v: &[u8]| written.get(&k).is_some_and(|w| w.iter().any(|x| x == v));
+        let prov_sig = if any_tmp_clash { "disk-shared-tmp-foreign-bytes" } else { "disk-get-unwritten-value" };
+        for (t, rs) in out.results.iter().enumerate() {
+            for (i, r) in rs.iter().enumerate() {
+                if let (Op::Get(k), Some(h)) = (&case.progs[t][i], r.strip_prefix('v')) {
+                    if !unhex(h).is_some_and(|v| wrote(*k, &v)) {
+                        fails.push((prov_sig.into(), format!("thread {t} get {k} answered {r}, which no put wrote for that key")));
+                    }
+                }
+            }
+        }
+        for k in 0..NKEYS {
+            if let Some((_, v)) = out.fs.iter().find(|(n, _)| *n == dname(k)) {
+                if !wrote(k, v) {
+                    fails.push((prov_sig.into(), format!("at quiescence the file of key {k} holds {}, which no put wrote for that key", hex(v))));
+                }
+            }
+        }
+        // books at quiescence and index / directory agreement
+        let (mut present, mut total) = (0u64, 0u64);
+        for (k, s) in out.slots.iter().enumerate() {
+            match s {
+                DSlot::Absent => {}
+                DSlot::Live(v) => {
+                    present += 1;
+                    total += v.len() as u64;
+                }
+                DSlot::Expired(n) => {
+                    present += 1;
+                    total += *n;
+                }
+                DSlot::Broken(n) => {
+                    present += 1;
+                    total += *n;
+                    let sig = if put_vs_remove(k) { "disk-put-remove-index-without-file" } else { "disk-index-without-file" };
+                    fails.push((sig.into(), format!("at quiescence key {k} is indexed ({n} bytes) but its file is gone: get fails")));
+                }
+                DSlot::FileOnly(v) => {
+                    fails.push(("disk-file-not-indexed".into(), format!("at quiescence key {k} has a file ({}) the index does not know", hex(v))));
+                }
+            }
+        }
+        if out.n != present || out.b != total {
+            let sig = if stale_get {
+                "disk-counter-drift-stale-get"
+            } else if any_tmp_clash {
+                "disk-shared-tmp-foreign-bytes"
+            } else {
+                "disk-books-quiescent"
+            };
+            fails.push((sig.into(), format!("at quiescence entry_count={} disk_usage={} but {} entries of {} bytes are stored", out.n, out.b, present, total)));
+        }
+        // linearizability of the threads' answers and the final contents (skipped when an
+        // operation failed: reported above)
+        let failed = out.results.iter().flatten().any(|r| r == "err" || r == "panic");
+        let complete = out.results.iter().zip(case.progs.iter()).all(|(r, p)| r.len() == p.len());
+        let odd_slot = out.slots.iter().any(|s| matches!(s, DSlot::Broken(_) | DSlot::FileOnly(_)));
+        if !failed && complete && !odd_slot {
+            let mcase = Case { max: 1000, fifo: false, pre: case.pre.clone(), progs: case.progs.clone() };
+            let mut contents = BTreeMap::new();
+            for (k, s) in out.slots.iter().enumerate() {
+                match s {
+                    DSlot::Live(v) => {
+                        contents.insert(k, Slot::Live(v.clone()));
+                    }
+                    DSlot::Expired(n) => {
+                        contents.insert(k, Slot::Expired(*n));
+                    }
+                    _ => {}
+                }
+            }
+            let mout = Outcome { pre: out.pre.clone(), results: out.results.clone(), sched: String::new(), trace: String::new(), drain: String::new(), steps: vec![], alive: vec![], n: 0, b: 0, contents, timeout: false };
+            let mut r0: BTreeMap<usize, RefSlot> = BTreeMap::new();
+            let pre_lin = Lin { case: &mcase, out: &mout, iv: vec![], drops: false, disk: true };
+            for (op, res) in case.pre.iter().zip(out.pre.iter()) {
+                if !pre_lin.apply(&mut r0, op, res) {
+                    fails.push(("disk-sequential-answer".into(), format!("pre op {} answered {res}", op.tok())));
+                }
+            }
+            let lin = Lin { case: &mcase, out: &mout, iv, drops: false, disk: true };
+            let mut next = vec![0usize; case.progs.len()];
+            if !lin.search(&mut next, &r0) {
+                let sig = if any_tmp_clash {
+                    "disk-shared-tmp-foreign-bytes"
+                } else if stale_get {
+                    "disk-expired-get-deletes-fresh-put"
+                } else if (0..NKEYS).any(put_vs_remove) {
+                    "disk-put-remove-index-without-file"
+                } else {
+                    "disk-not-linearizable"
+                };
+                fails.push((sig.into(), format!("no sequential order consistent with real-time order explains answers {:?} and final contents {:?}", out.results, out.slots)));
+            }
+        }
+        fails
+    }
+
+    impl Runner {
+        fn demit(&mut self, case: &DCase, out: &DOutcome) {
+            self.demit_line(case, out, &case.line(&out.d.sched));
+        }
+        fn demit_line(&mut self, case: &DCase, out: &DOutcome, line: &str) {
+            self.s.line(line, &out.response());
+            let fails = doracle(case, out);
+            let switched = out.d.steps.windows(2).any(|w| w[0].tid != w[1].tid && w[0].after != 'S' && w[0].after != 'D');
+            self.s.case(if switched { Some(line) } else { None });
+            self.s.tally(&format!("disk:threads={}", case.progs.len()));
+            self.s.tally_n("disk:steps", out.d.steps.len() as u64);
+            if switched {
+                self.s.tally("disk:schedules-with-a-switch-inside-an-operation");
+            }
+            for op in case.progs.iter().flatten() {
+                self.s.tally(&format!("disk:op:{}", &op.tok()[..1]));
+            }
+            if out.results.iter().flatten().any(|r| r == "err") {
+                self.s.tally("disk:an-operation-answered-err");
+            }
+            for (sig, msg) in fails {
+                *self.known_printed.entry(sig.clone()).or_insert(0) += 1;
+                self.s.oracle_fail(&sig, &msg, &[line.to_string()]);
+            }
+        }
+    }
+
+    fn drun_all(r: &mut Runner, case: &DCase, cap: usize) -> (usize, bool) {
+        dfs(
+            &mut |ch| {
+                let out = dexecute(case, ch);
+                r.demit(case, &out);
+                (out.d.steps.iter().map(|s| s.tid).collect(), out.d.alive.clone(), out.d.timeout)
+            },
+            cap,
+        )
+    }
+
+    fn drun_random(r: &mut Runner, rng: &mut Rng, case: &DCase) {
+        let sticky = rng.chance(1, 3);
+        let mut last = usize::MAX;
+        let mut ch = |_i: usize, alive: &[usize]| {
+            let t = if sticky && alive.contains(&last) && rng.chance(2, 3) { last } else { *rng.pick(alive) };
+            last = t;
+            Choice::Tid(t)
+        };
+        let out = dexecute(case, &mut ch);
+        r.demit(case, &out);
+    }
+
+    fn dalphabet() -> Vec<Op> {
+        vec![
+            Op::Get(0),
+            Op::Contains(0),
+            Op::Put(0, vec![0xa1], false),
+            Op::Put(0, vec![0xb2, 0xb2, 0xb2], false),
+            Op::Put(0, vec![0xc3, 0xc3], true),
+            Op::Remove(0),
+            Op::Put(1, vec![0xd4, 0xd4, 0xd4, 0xd4], false),
+            Op::Get(2),
+            Op::Put(2, vec![0x2a, 0x2a], false),
+            Op::Put(3, vec![0x3b, 0x3b, 0x3b], false),
+        ]
+    }
+
+    fn dpres() -> Vec<Vec<Op>> {
+        vec![vec![], vec![Op::Put(0, vec![0xe5; 5], false), Op::Put(2, vec![0x97; 4], false)], vec![Op::Put(0, vec![0xf6; 6], true)]]
+    }
+
+    fn drandom_case(rng: &mut Rng, nt: usize, max_ops: usize) -> DCase {
+        let npre = rng.below(3) as usize;
+        let mut pre = vec![];
+        for _ in 0..npre {
+            let k = rng.below(NKEYS as u64) as usize;
+            let n = rng.range(1, 6) as usize;
+            pre.push(Op::Put(k, vec![rng.byte(); n], rng.chance(1, 3)));
+        }
+        let op = |rng: &mut Rng| {
+            let k = if rng.chance(1, 2) { 0 } else { rng.below(NKEYS as u64) as usize };
+            let val = |rng: &mut Rng| {
+                let n = rng.below(5) as usize;
+                vec![rng.byte(); n]
+            };
+            match rng.below(10) {
+                0..=2 => Op::Get(k),
+                3 => Op::Contains(k),
+                4..=6 => Op::Put(k, val(rng), false),
+                7 => Op::Put(k, val(rng), true),
+                _ => Op::Remove(k),
+            }
+        };
+        let progs = (0..nt).map(|_| (0..rng.range(1, max_ops as u64)).map(|_| op(rng)).collect()).collect();
+        DCase { pre, progs }
     }
 
     fn alphabet() -> Vec<Op> {
@@ -911,10 +1457,19 @@ mod real {
                         out.sched = sched.iter().map(|d| char::from_digit(*d as u32, 10).unwrap_or('?')).collect();
                         r.emit(&case, &out);
                     }
-                    None => {
-                        r.s.line(&l, "bad-op");
-                        r.s.case(None);
-                    }
+                    None => match DCase::parse(&l) {
+                        Some((case, sched)) => {
+                            let mut ch = |i: usize, _alive: &[usize]| if i < sched.len() { Choice::Tid(sched[i]) } else { Choice::Drain };
+                            let out = dexecute(&case, &mut ch);
+                            // keep the request line exactly as given
+                            let given: String = sched.iter().map(|d| char::from_digit(*d as u32, 10).unwrap_or('?')).collect();
+                            r.demit_line(&case, &out, &case.line(&given));
+                        }
+                        None => {
+                            r.s.line(&l, "bad-op");
+                            r.s.case(None);
+                        }
+                    },
                 }
             }
             r.s.finish();
@@ -959,6 +1514,44 @@ mod real {
             run_random(&mut r, &mut rng, &case);
         }
         r.s.tally_n("C:random-cases", nc);
+        // ---- DiskCache under the controller
+        r.s.line("drun keys=a,b pre=- t=g5 s=-", "bad-op");
+        let t1 = Instant::now();
+        // D. every schedule of every pair of single operations, over every start state
+        let (dalpha, dpres) = (dalphabet(), dpres());
+        let (mut dsets, mut dtrunc) = (0u64, 0u64);
+        for pre in &dpres {
+            for a in &dalpha {
+                for b in &dalpha {
+                    let case = DCase { pre: pre.clone(), progs: vec![vec![a.clone()], vec![b.clone()]] };
+                    let (_, tr) = drun_all(&mut r, &case, 100_000);
+                    dsets += 1;
+                    dtrunc += tr as u64;
+                }
+            }
+        }
+        r.s.tally_n("D:disk-program-sets-1x1-all-schedules", dsets);
+        // E. 2 threads x 2 operations: every schedule (up to a cap) of sampled program sets
+        let ne = if args.thorough() { 150 } else { 6 };
+        let ecap = if args.thorough() { 4_000 } else { 300 };
+        for _ in 0..ne {
+            let pre = rng.pick(&dpres).clone();
+            let prog = |rng: &mut Rng| vec![rng.pick(&dalpha).clone(), rng.pick(&dalpha).clone()];
+            let case = DCase { pre, progs: vec![prog(&mut rng), prog(&mut rng)] };
+            let (_, tr) = drun_all(&mut r, &case, ecap);
+            dtrunc += tr as u64;
+        }
+        r.s.tally_n("E:disk-program-sets-2x2-all-schedules", ne);
+        r.s.tally_n("disk:enumerations-cut-at-cap", dtrunc);
+        // F. random programs, random schedules: 2-3 threads, 1-3 operations
+        let nf = if args.thorough() { 40_000 } else { 1_500 };
+        for i in 0..nf {
+            let nt = if i % 2 == 0 { 2 } else { 3 };
+            let case = drandom_case(&mut rng, nt, 3);
+            drun_random(&mut r, &mut rng, &case);
+        }
+        r.s.tally_n("F:disk-random-cases", nf);
+        r.s.extra.insert("wall_ms_disk".into(), serde_json::json!(t1.elapsed().as_millis() as u64));
         r.s.extra.insert("wall_ms_generate".into(), serde_json::json!(t0.elapsed().as_millis() as u64));
         r.s.finish();
     }
